@@ -634,25 +634,34 @@ fn create_doc_without_preceding_comment(
           ),
         ]);
       }
-      if e.e2.precedence() == expression.precedence() {
-        // For the commutative operators, we can remove parentheses.
-        match e.operator {
-          expr::BinaryOperator::MINUS | expr::BinaryOperator::DIV | expr::BinaryOperator::MOD => {}
-          _ => {
-            return Document::concat(vec![
-              create_doc_for_subexpression_considering_precedence_level(
-                heap,
-                comment_store,
-                expression,
-                &e.e1,
-                true,
-              ),
-              operator_preceding_comments_docs,
-              operator_doc,
-              create_doc(heap, comment_store, &e.e2),
-            ]);
-          }
-        }
+      if let expr::E::Binary(e2) = e.e2.as_ref()
+        && e2.operator == e.operator
+        && e2.e1.precedence() != expression.precedence()
+        && matches!(
+          e.operator,
+          expr::BinaryOperator::PLUS
+            | expr::BinaryOperator::MUL
+            | expr::BinaryOperator::AND
+            | expr::BinaryOperator::OR
+            | expr::BinaryOperator::CONCAT
+        )
+      {
+        // For an associative operator, `a op (b op c)` means the same as `a op b op c`, so the
+        // parentheses can be removed. This is only safe when the right operand is the same
+        // operator and does not itself start with another operator of the same level:
+        // `a * (b / c)`, `a == (b < c)` and `a * ((b / c) * d)` must keep their parentheses.
+        return Document::concat(vec![
+          create_doc_for_subexpression_considering_precedence_level(
+            heap,
+            comment_store,
+            expression,
+            &e.e1,
+            true,
+          ),
+          operator_preceding_comments_docs,
+          operator_doc,
+          create_doc(heap, comment_store, &e.e2),
+        ]);
       }
       // Safest rule
       Document::concat(vec![
